@@ -48,6 +48,7 @@ CFG = {
         'all six statements are proved in full: C14_readExact_sched, C14_decode_sched, C14_prefix (every stream that decodes completely), C14_prefix_serialize (every serialisation of a Bitmap.WF value), C14_prefix_rest, C14_write (+ C14_serializeFields_flatten)',
         'scheduled chunk size 0 is read as 1 in the model (the harness never generates 0)',
         '64-bit half: C14_t_decode_sched, C14_t_prefix, C14_t_prefix_serialize, C14_t_prefix_rest, C14_t_serializeFields_flatten, C14_t_write are proved in full (C14_t_prefix_serialize for every Treemap.WFd Bitmap.WF value; the treemap decoder is the same abstract-reader program; lifted through the bucket loop)',
+        'model-fidelity audit (notes/fidelity-codecs.md): the writer path now executed by the driver (`ser_fail`, `tser_fail`) is Bitmap.serializeIntoM / Treemap.serializeIntoM: one field per write_u16/u32/u64 call with the u64 arithmetic of the cardinality field, whose overflow panic (empty container, overflow checks on) is raised between two writes (a sink that fails earlier still yields Err); proved equal to serializeInto for values without empty containers and the property theorem restated: C14_serializeInto_mirror_eq, C14_write_mirror, C14_t_write_mirror. read_exact / write_all are the std loops written out (class A)',
     ],
     "level_text": "Lean 4 theorems: read_exact over any schedule of chunk sizes and interrupts equals read_exact over the plain "
                   "byte list, hence the decoder's result is schedule-independent; every strict prefix of a successfully "
